@@ -299,6 +299,23 @@ def gen_c02(tier, seed):
     for i in range(n):
         steps = history_steps(rng, rng.choice([4, 6, 8, 12] if tier == "quick" else [6, 10, 16, 24]))
         scens.append({"id": sid("C02", "h", i), "props": ["C02"], "mode": "clean", "tags": ["history"], "steps": steps})
+    # one long-lived Archive handle for the backups (a program embedding the library), while deletes / gcs
+    # come through other handles (another process): contents that go away with a deleted version and
+    # come back later
+    for i in range(12 if tier == "quick" else 150):
+        o = rng.choice([{"H": 1000, "M": 1000, "S": 0}, {"H": 1000, "M": 1000, "S": 1000}, {"H": 2, "M": 3, "S": 0}, {"H": 2, "M": 4, "S": 2}])
+        ca, cb = bytes([1, 2, 3]), bytes([4, 5])
+        ta = [node("/", "Dir"), node("/data", "File", ca, mt=(1600007000, 0)), node("/keep", "File", bytes([9]), mt=(1600007001, 0))]
+        tb = [node("/", "Dir"), node("/data", "File", cb, mt=(1600007002, 0)), node("/keep", "File", bytes([9]), mt=(1600007001, 0))]
+        tc = [node("/", "Dir"), node("/data", "File", ca, mt=(1600007003, 0)), node("/keep", "File", bytes([9]), mt=(1600007001, 0))]
+        if i % 3 == 2:
+            ta = mut(rng, ta, maxlen=4)
+        fresh_del = i % 2 == 0
+        steps = [{"op": "tree", "tree": ta}, bk(o), {"op": "tree", "tree": tb}, bk(o),
+                 {"op": "delete", "bands": [0], "dry": False, "fresh": fresh_del}, {"op": "restore_all"},
+                 {"op": "tree", "tree": tc}, bk(o, fresh=not fresh_del), {"op": "restore_all"}, {"op": "validate", "quick": False},
+                 {"op": "delete", "bands": [], "dry": False, "fresh": True}, {"op": "tree", "tree": tb}, bk(o), {"op": "restore_all"}]
+        scens.append({"id": sid("C02", "session", i), "props": ["C02"], "mode": "clean", "session": True, "tags": ["long-lived-handle"], "steps": steps})
     for i in range(8 if tier == "quick" else 100):
         scens.append({"id": sid("C02", "pfx", i), "props": ["C02"], "mode": "clean", "tags": ["prefix-family"],
                       "steps": prefix_history(rng, nsteps=rng.choice([2, 3]), observe="restore_all")})
@@ -716,7 +733,13 @@ def gen_c05(tier, seed):
         base = {"op": "delete", "bands": sel, "dry": False}
         kind = ["dry", "crash", "fail-reads", "plain"][(i // 2) % 4]
         if kind == "dry":
-            steps += [{"op": "delete", "bands": sel, "dry": True}, {"op": "restore_all"}, base, {"op": "restore_all"}, {"op": "validate"}]
+            steps += [{"op": "delete", "bands": sel, "dry": True}, {"op": "restore_all"},
+                      # a dry run changes nothing whatever else is asked for (--break-lock with and without a stale lock)
+                      {"op": "delete", "bands": sel, "dry": True, "break_lock": True}, {"op": "restore_all"}]
+            if i % 8 == 0:
+                steps += [{"op": "delete", "bands": sel, "dry": False, "crash_at": rng.randrange(6, 14)},
+                          {"op": "delete", "bands": sel, "dry": True, "break_lock": True}, {"op": "restore_all"}]
+            steps += [dict(base, break_lock=True), {"op": "restore_all"}, {"op": "validate"}]
         elif kind == "plain":
             steps += [base, {"op": "restore_all"}, {"op": "validate"}, {"op": "delete", "bands": [], "dry": False}, {"op": "restore_all"}]
         elif kind == "crash":
@@ -808,7 +831,7 @@ def gen_c06(tier, seed):
                 steps = steps[:-1] + [{"op": "delete", "bands": list(range(nb)), "dry": False}, steps[-1]]
                 dele = []
         steps.append({"op": "conc_sweep",
-                      "actors": [bk(o, actor="bk"), {"op": "delete", "bands": dele, "actor": "gc"}],
+                      "actors": [bk(o, actor="bk"), {"op": "delete", "bands": dele, "actor": "gc", "break_lock": i % 3 == 1}],
                       "preemptions": 2 if tier == "quick" or i % 4 else 3,
                       "sample": 60 if tier == "quick" else 1500, "seed": seed * 100 + i,
                       # every schedule with up to 3 preemptions (quick: an even spread of them) is first run
